@@ -107,6 +107,10 @@ func (fs *FileStorage) send(m storage.Message) (storage.Message, error) {
 	if data, err = json.Marshal(m); err != nil {
 		return m, fmt.Errorf("failed to marshal a message %v: %w", m, err)
 	}
+	// a line no reader accepts would make the whole file unreadable for every participant
+	if len(data)+1 > maxMessageSize {
+		return m, fmt.Errorf("message of %d bytes exceeds the %d bytes a reader accepts", len(data), maxMessageSize-1)
+	}
 
 	if _, err = fmt.Fprintln(fs.dataFile, string(data)); err != nil {
 		return m, fmt.Errorf("failed to write a message to a data file:  %w", err)
